@@ -624,7 +624,15 @@ def _stats_worker (items):
     rep.outcome((sc[0], sc[1], obs))
     for k, what in bad:
       rep.violation(k, "scenario %r: %s" % (describe(sc), what), dict(part="stats", scenario=list(sc)))
+      v = rep.violations[k]
+      if _rank(dict(scenario=list(sc))) < _rank(v["replay"]):      # keep the simplest counterexample, not the first
+        v["what"] = "scenario %r: %s" % (describe(sc), what); v["replay"] = dict(part="stats", scenario=list(sc))
   return rep
+
+
+def _rank (replay):
+  sc = replay["scenario"]; comp = sc[2]
+  return (len(comp), 0 if all(comp) else 1, sum(comp), json.dumps(sc))
 
 
 def describe (sc):
@@ -644,8 +652,7 @@ def run_stats (cfg, rep):
   best = {}
   for r in pmap(_stats_worker, chunks, cfg.workers, seed=cfg.seed):
     for k, v in r.violations.items():       # simplest counterexample per key, independent of worker order
-      comp = v["replay"]["scenario"][2]
-      rank = (len(comp), 0 if all(comp) else 1, json.dumps(v["replay"], sort_keys=True))
+      rank = _rank(v["replay"])
       if k not in best or rank < best[k][0]: best[k] = (rank, v["what"], v["replay"])
     rep.merge(r)
   for k, (rank, what, rp) in best.items():
